@@ -222,6 +222,13 @@ func (s *Service) fetchValidatorIndices(_ context.Context,
 	s.attestedMu.Lock()
 	if _, exists := s.attested[epoch]; !exists {
 		s.attested[epoch] = make(map[phase0.ValidatorIndex]struct{})
+		// Housekeeping after a successful attestation only removes the map of two epochs ago, so
+		// when starting a new epoch remove anything older that it did not get to.
+		for oldEpoch := range s.attested {
+			if oldEpoch+2 < epoch {
+				delete(s.attested, oldEpoch)
+			}
+		}
 	}
 	s.attestedMu.Unlock()
 
